@@ -146,6 +146,24 @@ def e2(ctx):
                         plist and plist[0].k == 'col' and plist[0].a[1] == 'rowid'
                     if not good:
                         ok, why = False, 'the DELETE is not restricted to the rowid of the row just selected'
+                    elif role == 'expired-head':
+                        from .rules_expiry import _py_atom_cases, CASES, EXPIRED
+                        sel = plist[0].a[0]
+                        cases = set(CASES)
+                        seen = False
+                        for e in tr[sel:ev.seq]:
+                            if e.kind != 'TEST':
+                                continue
+                            b = _py_atom_cases(e)
+                            if b is not None and b[0] == 'atom' and b[1] == sel:
+                                seen = True
+                                s_ = b[2] if e.d['truth'] else ((set(CASES) if b[3] else {'<', '=', '>'}) - b[2])
+                                if not b[3]:
+                                    cases -= {'NULL'}
+                                cases &= s_
+                        if not seen or not cases <= EXPIRED:
+                            ok, why = False, 'a peek deletes the head row without having established that it is ' \
+                                             'expired (possible expire_time cases: %s)' % sorted(cases)
                     elif role == 'explicit':
                         sst = tr[plist[0].a[0]].d['stmt']
                         sl = sst.slots()
@@ -333,7 +351,7 @@ def e4(ctx):
         okr, okt = True, True
         witr = witt = None
         nr = nt = 0
-        for p in ctx.paths(f, 'plain'):
+        for p in ctx.paths(f, 'plain3'):
             if p.kind == 'cut':
                 continue
             req = _required_counts(p)
